@@ -4,6 +4,7 @@ import (
 	"encoding/json"
 	"strconv"
 	"strings"
+	"unicode/utf8"
 )
 
 func parseJSONText(s string) (interface{}, error) {
@@ -400,6 +401,23 @@ var unqAlphabet = []string{"a", "z", "A", "Z", "_", "0", "9", "-", "\v", "é", "
 // unquoted (C14): a string is an unquoted identifier iff it matches
 // [A-Za-z_][A-Za-z0-9_]*; exhaustive over short strings.
 func streamUnquoted(seed uint64, idx int) caseT {
+	if idx < 512 {
+		// every byte 0..255 as the first character, and as the second after `a` (each entry of the lexer's tables once)
+		s := string([]byte{byte(idx % 256)})
+		if idx >= 256 {
+			s = "a" + s
+		}
+		doc := map[string]interface{}{s: "marker"}
+		want := "reject"
+		if unquotedRe.MatchString(s) {
+			want = "field"
+		}
+		if !utf8.ValidString(s) {
+			doc = map[string]interface{}{"k": "marker"}
+		}
+		return caseT{lines: []string{"C " + hexField(s) + "\tunquoted=" + want, "S " + hexField(s) + " " + canonOf(doc)}}
+	}
+	idx -= 512
 	n, span := 1, len(unqAlphabet)
 	k := idx
 	for k >= span && n < 3 {
@@ -420,7 +438,8 @@ func streamUnquoted(seed uint64, idx int) caseT {
 	return caseT{lines: []string{"C " + hexField(s) + "\tunquoted=" + want, "S " + hexField(s) + " " + canonOf(doc)}}
 }
 
-func unquotedCount() int {
+func unquotedCount() int { return 512 + unquotedCount0() }
+func unquotedCount0() int {
 	a := len(unqAlphabet)
 	return a + a*a + a*a*a
 }
